@@ -248,6 +248,8 @@ var baseForms = []struct {
 	{"", "https://example.com/{b}/x", map[string]string{"b": "v2"}, nil},
 	{"", "https://example.com", nil, nil},
 	{"/flag", "https://example.com/ignored", nil, nil},
+	{"/", "https://example.com/ignored", nil, nil},
+	{"/v1/", "https://example.com/ignored/", nil, nil},
 	{"", "https://api.example.com", nil, []string{"http://localhost:8080/v2", "/v3"}},
 	{"", "https://example.com/first", nil, []string{"https://example.com/second"}},
 }
